@@ -2,13 +2,14 @@
 from . import common as cm
 
 ID = 'C19'
-FUNCTIONS = ['flowdyn.modeldisc.base.rhs', 'flowdyn.modeldisc.fvm1d.add_source', 'flowdyn.modelphy.euler.euler.__init__',
+FUNCTIONS = ['flowdyn.modeldisc.base.rhs', 'flowdyn.modeldisc.fvm1d.add_source', 'flowdyn.modeldisc.fvm2dcart.add_source', 'flowdyn.modelphy.euler.euler2d.__init__', 'flowdyn.modelphy.euler.euler.__init__',
              'flowdyn.modelphy.euler.euler1d.__init__', 'flowdyn.modelphy.shallowwater.shallowwater1d.__init__',
              'flowdyn.modelphy.euler.nozzle.{__init__,initdisc,src_mass,src_mom,src_energy}']
 BOUNDS = ('n=3 cells, arbitrary monotone faces symbolic, all admissible cell data symbolic; every subset of equations carrying a '
           'source (None elsewhere); sources S_i(x,Q) = sigma_i*x + tau_i*Q[(i+1) mod neq] + omega_i with symbolic coefficients '
           '(state and position dependent, replayable); section law A(x) = a0 + a1 x + a2 x^2 with symbolic coefficients, positive '
-          'at the faces and centres (plus the constant law); fluxes hlle/hllc/rusanov, reconstruction extrapol1 and muscl(minmod)')
+          'at the faces and centres (plus the constant law); fluxes hlle/hllc/rusanov, reconstruction extrapol1 and muscl(minmod); 2D operator (euler2d, 3x2 periodic grid, centered and hlle): '
+          'every subset of the three equations, sources linear in x, y and Q, the momentum source a 2-vector')
 OUTSIDE = 'source functions outside the parametrised family (the operator only adds what the callable returns); float round-off'
 ASSUMPTIONS = ['gamma = 2 and 7/5']
 EXPLANATION = 'Two symbolic runs of the real operator (with / without sources) and the closed-form nozzle terms as oracle.'
@@ -28,10 +29,71 @@ def configs(tier):
                             out.append(dict(c, law=law))
                     else:
                         out.append(c)
+    # the 2D operator has its own add_source
+    for mask in range(0, 8):
+        out.append({'model': 'euler2d', 'mask': mask, 'nx': 3, 'ny': 2, 'gamma': '7/5', 'flux': 'hlle' if mask % 2 else 'centered'})
     return out
 
 
+def _twod(cfg, B):
+    """fvm2dcart.add_source: operator with sources = operator without + S_i(centres, Q) on equation i (the momentum source is a
+    2-vector per cell); sources S(x, y, Q) with symbolic coefficients"""
+    np = B.np
+    mask = cfg['mask']
+    calls = []
+    coefs = {}
+
+    def mksrc(i):
+        sg, ta, om, nu = B.var('sig%d' % i), B.var('tau%d' % i), B.var('om%d' % i), B.var('nu%d' % i)
+        coefs[i] = (sg, ta, om, nu)
+
+        def src(x, q):
+            calls.append((i, x, [d.copy() for d in q]))
+            sc = sg * x[0] + nu * x[1] + ta * q[2 if i == 0 else 0] + om          # q[0] or q[2]: one value per cell
+            return sc if i != 1 else B.np.stack([sc, nu * x[0] - sg * x[1] + om * q[0]])
+        return src
+    srcs = [mksrc(i) if (mask >> i) & 1 else None for i in range(3)]
+    try:
+        d = cm.build2d(B, cfg, source=list(srcs) if mask else None)
+        d0 = cm.build2d(B, cfg)
+        cons = [c.copy() for c in d['cons']]
+        fdm = B.fd
+        R = [r.copy() for r in d['rhs'].rhs(fdm.field.fdata(d['model'], d['mesh'], [c.copy() for c in cons]))]
+        R0 = [r.copy() for r in d0['rhs'].rhs(fdm.field.fdata(d0['model'], d0['mesh'], [c.copy() for c in cons]))]
+    except Exception as e:
+        B.ob('constructs-and-evaluates', 'true', B.boolean(False), meta={'exception': '%s: %s' % (type(e).__name__, str(e)[:200])})
+        return
+    B.ob('constructs-and-evaluates', 'true', B.boolean(True))
+    xx, yy = d['mesh'].centers()
+    for i in range(3):
+        exp = R0[i]
+        if (mask >> i) & 1:
+            sg, ta, om, nu = coefs[i]
+            sc = sg * xx + nu * yy + ta * cons[2 if i == 0 else 0] + om
+            if i != 1:
+                exp = exp + sc
+            else:
+                exp = [exp[0] + sc, exp[1] + (nu * xx - sg * yy + om * cons[0])]
+        if i != 1:
+            B.eq_arrays('2d:operator=plain+sources:eq%d' % i, R[i], exp)
+        else:
+            B.eq_arrays('2d:operator=plain+sources:eq1x', R[1][0], exp[0])
+            B.eq_arrays('2d:operator=plain+sources:eq1y', R[1][1], exp[1])
+    for i in range(3):
+        cnt = sum(1 for c in calls if c[0] == i)
+        B.ob('2d:source%d-called-once' % i, 'true', B.boolean(cnt == (1 if (mask >> i) & 1 else 0)), meta={'calls': cnt})
+    for (i, x, q) in calls:
+        B.eq_arrays('2d:source%d-gets-centres-x' % i, x[0], xx)
+        B.eq_arrays('2d:source%d-gets-centres-y' % i, x[1], yy)
+        B.eq_arrays('2d:source%d-gets-conservative-data[0]' % i, q[0], cons[0])
+        B.eq_arrays('2d:source%d-gets-conservative-data[1x]' % i, q[1][0], cons[1][0])
+        B.eq_arrays('2d:source%d-gets-conservative-data[1y]' % i, q[1][1], cons[1][1])
+        B.eq_arrays('2d:source%d-gets-conservative-data[2]' % i, q[2], cons[2])
+
+
 def harness(cfg, B):
+    if cfg['model'] == 'euler2d':
+        return _twod(cfg, B)
     fd = B.fd
     np = B.np
     n = 3
